@@ -1009,3 +1009,58 @@ Proof.
     apply andb_true_iff in E2 as [A B]. apply N.eqb_eq in A. split; [assumption|].
     apply offsets_ok_spec in B. destruct B as [_ B]. exact B.
 Qed.
+
+(* ---- list limits ---- *)
+Lemma all_some_length {A} : forall (l : list (option A)) r, all_some l = Some r -> length r = length l.
+Proof.
+  induction l as [|[a|] l IH]; intros r H; cbn [all_some] in H; try discriminate.
+  - now injection H as <-.
+  - destruct (all_some l) as [r'|]; [|discriminate]. injection H as <-. simpl. f_equal. now apply IH.
+Qed.
+Lemma chunks_of_count : forall fuel sz (bs : bytes), (0 < sz)%nat ->
+  (length (chunks_of fuel sz bs) * sz < length bs + sz)%nat.
+Proof.
+  induction fuel as [|f IH]; intros sz bs Hsz; [simpl; lia|].
+  destruct bs as [|b bs']; [simpl; lia|]. cbn [chunks_of length]. set (bs := b :: bs') in *.
+  specialize (IH sz (skipn sz bs) Hsz). rewrite skipn_length in IH.
+  change (S (length bs')) with (length bs). assert (0 < length bs)%nat by (unfold bs; simpl; lia).
+  rewrite Nat.mul_succ_l. destruct (Nat.le_gt_cases sz (length bs)) as [Hle|Hgt]; [lia|].
+  rewrite skipn_all2 by lia. destruct f; simpl; lia.
+Qed.
+Lemma cut_length : forall offs bs total, length (cut bs offs total) = length offs.
+Proof.
+  induction offs as [|o offs IH]; intros bs total; [reflexivity|].
+  destruct offs as [|o' offs']; [reflexivity|]. cbn [cut length]. f_equal. apply IH.
+Qed.
+
+Theorem deser_list_limit : forall et l bs vs, deserialize (TList et l) bs = Some (VSeq vs) -> len_N vs <= l.
+Proof.
+  intros et l bs vs H. cbn [deserialize] in H. destruct (fixed_size et) as [sz|] eqn:Es.
+  - destruct (sz =? 0) eqn:E0; [discriminate|]. apply N.eqb_neq in E0.
+    destruct ((len_N bs mod sz =? 0) && (len_N bs / sz <=? l)) eqn:E; [|discriminate].
+    apply andb_true_iff in E as [Em El]. apply N.eqb_eq in Em. apply N.leb_le in El.
+    destruct (all_some _) as [r|] eqn:Ea; [|discriminate]. injection H as <-.
+    apply all_some_length in Ea. rewrite map_length in Ea.
+    pose proof (chunks_of_count (length bs) (N.to_nat sz) bs ltac:(lia)) as Hc.
+    unfold len_N in *. rewrite Ea.
+    assert (Hdiv : N.of_nat (length bs) = sz * (N.of_nat (length bs) / sz)).
+    { pose proof (N.div_mod (N.of_nat (length bs)) sz E0). lia. }
+    set (k := N.of_nat (length bs) / sz) in *.
+    assert (N.of_nat (length (chunks_of (length bs) (N.to_nat sz) bs)) < k + 1); [|lia].
+    apply N.mul_lt_mono_pos_r with (p := sz); [lia|]. nia.
+  - destruct bs as [|b0 bs0] eqn:Eb; [injection H as <-; cbn; lia|]. rewrite <- Eb in *. clear Eb b0 bs0.
+    destruct (len_N bs <? 4); [discriminate|].
+    set (o0 := le_value (firstn 4 bs)) in *.
+    destruct (negb (o0 mod 4 =? 0) || (o0 =? 0) || (len_N bs <? o0) || (l <? o0 / 4)) eqn:E; [discriminate|].
+    apply orb_false_iff in E as [E E4]. apply orb_false_iff in E as [E E3]. apply orb_false_iff in E as [E1 E2].
+    apply negb_false_iff, N.eqb_eq in E1. apply N.ltb_ge in E4.
+    destruct (offsets_ok _ _ _); [|discriminate].
+    destruct (all_some _) as [r|] eqn:Ea; [|discriminate]. injection H as <-.
+    apply all_some_length in Ea. rewrite map_length, cut_length, map_length in Ea.
+    pose proof (chunks_of_count (N.to_nat o0) 4 (firstn (N.to_nat o0) bs) ltac:(lia)) as Hc.
+    rewrite firstn_length in Hc. unfold len_N. rewrite Ea.
+    assert (Hdiv : o0 = 4 * (o0 / 4)) by (pose proof (N.div_mod o0 4 ltac:(lia)); lia).
+    set (k := o0 / 4) in *.
+    assert (N.of_nat (length (chunks_of (N.to_nat o0) 4 (firstn (N.to_nat o0) bs))) < k + 1); [|lia].
+    apply N.mul_lt_mono_pos_r with (p := 4); [lia|]. nia.
+Qed.
